@@ -678,6 +678,14 @@ impl From<Thunk> for NickelValue {
     }
 }
 
+#[cfg(feature = "verif-hooks")]
+impl Thunk {
+    /// H7 (verification hook): is this thunk currently black-holed (being evaluated)?
+    pub fn verif_blackholed(&self) -> bool {
+        self.state() == ThunkState::Blackholed
+    }
+}
+
 impl std::fmt::Pointer for Thunk {
     fn fmt(&self, f: &mut std::fmt::Formatter<'_>) -> std::fmt::Result {
         std::fmt::Pointer::fmt(&self.0, f)
